@@ -24,6 +24,14 @@ impl<T> SerialMap<T> {
     //@fn-from broker_serial_map broker/src/serial_map.rs SerialMap::remove
     //@fn-from broker_serial_map broker/src/serial_map.rs SerialMap::get_mut
     //@fn-from broker_serial_map broker/src/serial_map.rs SerialMap::entry
+
+    // `loop { .. break serial; }` (break with a value: outside Verus). ASSUMED: hands out a serial that is not pending and
+    // records the call under it
+    //@fn broker/src/serial_map.rs SerialMap::insert nobody
+        ensures
+            !old(self).elems@.contains_key(r),
+            final(self).elems@ =~= old(self).elems@.insert(r, obj),
+    //@end
 }
 
 //@item broker/src/broker/object.rs struct Object
@@ -88,6 +96,16 @@ impl ConnectionState {
     //@fn-from broker_conn_state broker/src/broker/conn_state.rs ConnectionState::unsubscribe
     //@fn-from broker_conn_state broker/src/broker/conn_state.rs ConnectionState::add_call
     //@fn-from broker_conn_state broker/src/broker/conn_state.rs ConnectionState::remove_call
+
+    // call_data maps with a tuple-pattern closure (outside Verus's subset): contract ASSUMED
+    //@fn broker/src/broker/conn_state.rs ConnectionState::call_data nobody
+        ensures
+            match r {
+                Some(d) => self.calls@.contains_key(caller_serial) && d.0 == self.calls@[caller_serial].0
+                    && *d.1 == self.calls@[caller_serial].1,
+                None => !self.calls@.contains_key(caller_serial),
+            },
+    //@end
 
     // `.map(|s| s.contains(&event))` on an Option (closure): outside Verus. ASSUMED: subscribed to all events of the service or
     // to this event
